@@ -17,6 +17,10 @@ def ShapesAgree {α : Type} : List (M α) → Bool
   | [L] => rectB L
   | L :: L' :: rest => rectB L && L.c == L'.r.length && ShapesAgree (L' :: rest)
 
+/-- well-formedness of the stored residual matrices, as a test (the driver runs it with `fshapes`): `phg` / `pha`
+are rectangular arrays -/
+def wfB {α : Type} (d : NasT α) : Bool := d.phg.all (fun p => rectB p.2) && d.pha.all (fun p => rectB p.2)
+
 section tran
 variable {κ : Type} [DecidableEq κ] [LT κ] [DecidableLT κ] [LE κ] [DecidableLE κ] (mkKey : Nat → Nat → κ)
 variable {α : Type} [Add α] [Mul α] [OfNat α 0] [OfNat α 1] [DecidableEq α]
